@@ -73,7 +73,9 @@ PROPS["C01"] = dict(
                     reach=(["foreign-arch", "x32", "default"] + (["allow"] if not n.startswith("k0") else []) + (["trace"] if not n.endswith("m0") else [])))
                for n in ["k0m0", "k1m0", "k0m1", "k1m1", "k2m1", "k2m2", "k3m2", "k40m0"]] +
               [dict(pkg=LS, run="^VerifC01_%s$" % n, tiers=["thorough"], replay="model", timeout=3000) for n in ["k80m0", "k130m130", "k255m1", "k256m0", "k300m60"]] +
-              [dict(pkg="./cmd/runprog/config", run="^VerifC01_CleanTrace$", tiers=["quick", "thorough"], replay="native", reach=["traced", "overlap"])],
+              [dict(pkg="./cmd/runprog/config", run="^VerifC01_CleanTrace$", tiers=["quick", "thorough"], replay="native", reach=["traced", "overlap"]),
+               dict(pkg="./cmd/runprog/config", run="^VerifC01_GetConf$", tiers=["quick", "thorough"], replay="native", reach=["allow-proc"]),
+               dict(pkg=LS, run="^VerifC01_TwoBuilds$", tiers=["quick", "thorough"], replay="model", reach=["second-allow", "second-trace"])],
 )
 
 PROPS["C09"] = dict(
@@ -110,5 +112,62 @@ PROPS["C08"] = dict(
         dict(pkg=PT, run="^VerifC08_CheckUsage$", replay="model", reach=["mle", "tle", "within", "both"]),
         dict(pkg=PT, run="^VerifC08_PtraceLimitSignals$", replay="model", reach=["xcpu", "xfsz", "other"]),
         dict(pkg=US, run="^VerifC08_UnshareUsage$", replay="model", reach=["over-limit", "exited", "signaled"]),
+    ],
+)
+
+PROPS["C02"] = dict(
+    level="other",
+    level_text=("Bounded symbolic execution of the real tracerHandler.Handle: the syscall number ranges over the whole amd64 table (solver-enumerated), the dirfd "
+                "register and the open flag words are full 64-bit SMT variables; z3 shows the (directory register, pathname register, access class) used equal the "
+                "syscall ABI's, that the base directory is selected from the kernel's (int)reg view of dirfd, and that every create/truncate/write-capable open is "
+                "checked as a write (unreadable open_how => write)."),
+    level_note=SYMEX_NOTE + "Register accessors, GetString, getProcCwd/getProcFd, os.Lstat and PtracePeekData are stubs; the ABI table in the harness is written from the man pages. "
+               "Symlink/'..' resolution against a symbolic forest is NOT yet part of this check (see outside).",
+    explanation="Handle/check*/absPath*/isOpenReadOnly/readOpenHowFlags executed symbolically; oracles: ABI table, kernel int-dirfd rule, open(2) flag semantics.",
+    bounds={"syscall number": "all values: the whole table plus 'unknown'", "dirfd register": "all 2^64 values x 15 *at syscalls", "open flags": "all 2^64 words for open/openat/openat2",
+            "file system": "no symbolic links (resolution is the identity)"},
+    outside=["symlink chains and '..' after symlinks (resolveTraceePath differential not built yet)", "/proc alias grammar beyond what Handle exercises here", "TOCTOU between check and use"],
+    assumptions=["tracee single-threaded (tid = tgid)"],
+    harnesses=[
+        dict(pkg=RP, run="^VerifC02_ArgPositions$", replay="model", reach=["path-syscall", "other-syscall", "unknown-number"], timeout=900),
+        dict(pkg=RP, run="^VerifC02_Dirfd$", replay="model", reach=["at_fdcwd", "descriptor"]),
+        dict(pkg=RP, run="^VerifC02_OpenFlags$", replay="model", reach=["write-capable", "read-only", "open_how-unreadable"]),
+    ],
+)
+
+PROPS["C03"] = dict(
+    level="other",
+    level_text=("Bounded symbolic execution of the real trace loop (Tracer.trace, ptraceHandle.handle, handleTrap, setPtraceOption, skipSyscall, killAll, collectZombie) "
+                "against a K-PTRACE contract model: wait-status words, handler verdict (all 2^64 values), registers and the reporting process are solver/exploration "
+                "variables; a monitor inside the model asserts options-before-first-resume, ban => orig_rax=-1 before resume, kill => never resumed and Disallowed Syscall, "
+                "allow => unmodified registers, same-signal re-injection, group kill and reaping before return."),
+    level_note=SYMEX_NOTE + "K-PTRACE (stops, wait4, ESRCH on non-stopped tracees, TRACEFORK auto-attach) is a contract model of ptrace(2); that Linux honours it is outside.",
+    explanation="trace()/handle()/handleTrap() run on symbolic event streams from the K-PTRACE model with a monitor; see harness zz_verif_c03.go.",
+    bounds={"events": "<=4 events quick (2 processes), <=6 events thorough (3 processes)", "verdict": "any 64-bit TraceAction", "schedules": "canceller goroutine interleavings, preemption bound 2"},
+    outside=["launcher ordering PTRACE_TRACEME/SIGSTOP before seccomp load (see C04 machinery)", "the return value seen by the program (rax) is set by runner/ptrace.softBanSyscall: checked in C15 handler harness", "kernel ptrace semantics themselves"],
+    assumptions=["K-PTRACE contract"],
+    harnesses=[
+        dict(pkg=PT, run="^VerifC03_Trace_Quick$", tiers=["quick", "thorough"], replay="model", reach=["ban-enforced", "allow-resumed", "kill-verdict"], timeout=900),
+        dict(pkg=PT, run="^VerifC03_MultiProc$", tiers=["quick", "thorough"], replay="model", reach=["ban-enforced", "allow-resumed", "kill-verdict"], timeout=900),
+        dict(pkg=PT, run="^VerifC03_Trace_Quick5$", tiers=["thorough"], replay="model", timeout=3000, max_paths=3000000),
+        dict(pkg=PT, run="^VerifC03_Trace_Thorough$", tiers=["thorough"], replay="model", timeout=20000, max_paths=30000000),
+    ],
+)
+
+PROPS["C15"] = dict(
+    level="other",
+    level_text=("Bounded symbolic execution of GetString/vmReadStr/vmRead/clen against a tracee-memory model (symbolic NUL offset in windows around 0, the page boundary and "
+                "PATH_MAX; unmapped pages; process_vm_readv partial reads/EFAULT/ENOSYS, PEEK fallback) with every Go panic site a solver obligation; the trace loop under "
+                "a tracee that vanishes (ESRCH) at any ptrace request; the handler on unknown syscall numbers."),
+    level_note=SYMEX_NOTE + "process_vm_readv/PTRACE_PEEKDATA contracts are modelled (partial transfer up to the first unmapped byte).",
+    explanation="GetString & friends and trace() executed symbolically; panics, Runner Error on the program's account and lack of progress are the violations.",
+    bounds={"NUL offset": "symbolic in [-1] U [0,8] U [4086,4104]", "first unmapped offset": "{none,0,1,6,4096,8192} page-aligned", "start alignment": "{0,1,4090,4095}",
+            "events": "<=4 with one vanished-tracee injection at any of the first 6 ptrace requests"},
+    outside=["memory changing between read and use", "strings longer than 2*PATH_MAX"],
+    assumptions=["K-PTRACE contract", "process_vm_readv contract"],
+    harnesses=[
+        dict(pkg=PT, run="^VerifC15_GetString_Quick$", replay="model", reach=["terminated", "unterminated"]),
+        dict(pkg=PT, run="^VerifC15_TraceESRCH$", replay="model", reach=["vanished"], timeout=900),
+        dict(pkg=RP, run="^VerifC02_ArgPositions$", replay="model", reach=["unknown-number"], timeout=900),
     ],
 )
